@@ -5,14 +5,16 @@ V = os.path.dirname(os.path.dirname(os.path.abspath(__file__)))
 TB = ("Coq 8.16.1 kernel (+VM); stdlib axioms as listed per theorem in the evidence file; hand-written Gallina model tied to /repo "
       "by a differential correspondence run on every invocation (extraction ExtrOcamlBasic/ExtrOCamlFloats/ExtrOCamlInt63 + OCaml driver "
       "+ Go harness built against /repo's working tree)")
-CHECKS = {
- 'C19': dict(script='c19.py', cat='proof', ref='6/C19',
-     text='Theorems over Z for every valid start date and every run length (induction on the step count): each emitted date is the calendar successor under an independent closed-form day number, which is proved injective on valid dates. The model is tied to dates.go by an exact differential run through sim.Catalog.',
-     note=TB + '; Go int(float64) modelled as truncation.',
-     tech='Coq proof (lia over Z, induction on steps) + differential correspondence of the extracted model'),
-}
+import glob
+def load_checks():
+    c = {}
+    for f in sorted(glob.glob(os.path.join(V, 'tools', 'manifest.d', '*.json'))):
+        d = json.load(open(f))
+        c[d['id']] = d
+    return c
 NOT_YET = {}
 def main():
+    CHECKS = load_checks()
     props = [json.loads(l) for l in open(os.path.join(V, 'properties.jsonl'))]
     checks = []
     na = []
@@ -26,9 +28,9 @@ def main():
                 'thorough_cmd': 'python3 tools/%s --tier thorough' % c['script'],
                 'evidence_file': 'evidence/%s.json' % pid,
                 'replay_cmd_template': 'python3 tools/%s --replay {path}' % c['script'],
-                'engine': 'coq-model+correspondence',
+                'engine': c.get('engine','coq-model+correspondence'),
                 'level_claimed': {'category': c['cat'], 'text': c['text'], 'design_ref': 'DESIGN.md section ' + c['ref']},
-                'level_note': c['note'],
+                'level_note': c.get('note', TB),
                 'technique': c['tech'],
             })
         else:
@@ -46,4 +48,5 @@ def main():
         'notes': 'See DESIGN.md. Evidence is written by each check run; known_findings.txt lists recorded and fixed defects.',
     }
     json.dump(m, open(os.path.join(V, 'MANIFEST.json'), 'w'), indent=1)
-main()
+if __name__ == '__main__':
+    main()
